@@ -469,9 +469,12 @@ def run(ctx):
 
     # reading what another writer stored, writing what another reader decrypts: the raw-vs-compressed decision and the key / flag
     # consistency of the builder are clauses of this property as much as of C01 (rules shared)
-    from .c01 import decision_bound_rule, key_from_final_flags_rule
+    from .c01 import decision_bound_rule, key_from_final_flags_rule, cipher_block_extent_rule
+    cipher_block_extent_rule(ctx, mpq, "C02")
     decision_bound_rule(ctx, mpq, "C02")
     key_from_final_flags_rule(ctx, mpq, "C02")
+    from .c03 import never_expands_rule
+    never_expands_rule(ctx, mpq, "C02")
 
     # names are hashed byte-wise (interoperability of non-ASCII names); the kernels themselves are decided under C04
     from .c04 import name_hash_iterates_bytes
